@@ -581,4 +581,6 @@ def main(tier, replay=None):
         "parameters, force_update) are observed in-process and through that report only; teos-cli binary: observed "
         "through the TCP connection it opens for the tower (address, port)",
     ], time.time() - t0, nviol)
+    if not nviol:
+        shutil.rmtree(wd, ignore_errors=True)    # (a few hundred MB of case lines; kept when there is something to look at)
     return 1 if nviol else 0
